@@ -342,20 +342,33 @@ def run_desc(client, base, desc, jobs):
 
 class Check(PropertyCheck):
     prop = "C10"
-    module = "LLBuild.Props.C10"
+    module = "LLBuild.Props.C10All"
     theorems = ["LLBuild.FailProp.C10_failure_maps_to_failed_input", "LLBuild.FailProp.C10_failure_maps_to_failed_input_nodes",
                 "LLBuild.FailProp.C10_process_outcomes", "LLBuild.FailProp.C10_skip_domain",
                 "LLBuild.FailProp.C10_failed_input_skips", "LLBuild.FailProp.C10_never_up_to_date",
-                "LLBuild.FailProp.C10_build_fails"]
-    extractors = ["x_failtables"]
+                "LLBuild.FailProp.C10_build_fails"] + \
+               ["LLBuild.Engine." + t for t in (
+                   # engine level, any client with the failure facts (Props/C10Engine.lean)
+                   "C10_failed_never_up_to_date", "C10_failed_up_to_date_rejected", "C10_failed_never_up_to_date_any_client",
+                   "C10_failed_verdict_invalid", "C10_failed_is_rerun", "C10_no_downstream_value_step", "C10_no_downstream_value",
+                   "C10_no_downstream_value_unique", "C10_downstream_done_is_bad", "C10_downstream_delivers_bad",
+                   "C10_downstream_build_returns_bad", "C10_converges")] + \
+               ["LLBuild.BuildSystemClient." + t for t in (
+                   # the BuildSystem's rule set has the failure facts (Props/C10Client.lean)
+                   "C10_client_failure", "C10_client_failed_never_up_to_date", "C10_client_failed_is_rerun",
+                   "C10_client_downstream_done_is_bad", "C10_client_downstream_delivers_bad", "C10_client_converges",
+                   "C10_client_tables_agree")]
+    # x_bsrules / x_enginefp: the engine-level theorems (Props/C10Client.lean, Props/C10Engine.lean) quantify over the
+    # generated rule tables of the C08 client model and import the engine-model fingerprint check of C01
+    extractors = ["x_failtables", "x_bsrules", "x_enginefp"]
     harnesses = [("vc10", "plain")]
     assumptions = [
         "decision chains are translated from the source text by extract/x_failtables.py (fails closed on unknown shapes) and corresponded exhaustively against the real methods",
         "phony commands' virtual non-timestamp outputs are ordering-only edges (F16; documented purpose of the tool) and SwiftGetVersionCommand is never a producer",
-        "engine-level consequences (closure, re-run on the next build, convergence) rest on C01/C02/C08; here they are checked end to end on generated descriptions only",
+        "engine-level clauses (closure, re-run on the next build, convergence) are theorems about traces accepted by the abstract engine monitor (Model/Engine.lean; its tie to BuildEngine.cpp is C01's correspondence) for any client with the two failure facts, instantiated for the C08 client model (Model/BuildSystemClient.lean: no discovered dependencies, a command has no failure of its own besides a missing/failed input); 'not executed' is stated on values (the skip value), the process-level statement is C10_failed_input_skips + the end-to-end oracle",
         "a CAPIExternalCommand whose client supplies its own is_result_valid is outside the table (client code)",
     ]
-    trusted_base = ["extractor x_failtables", "harness vc10 (real getResultForOutput / provideValue+execute / isResultValid / Produced*NodeTask::isResultValid)",
+    trusted_base = ["extractor x_failtables", "extractors x_bsrules, x_enginefp (shared with C08 / C01) and the hand models Model/Engine.lean, Model/BuildSystemClient.lean for the engine-level theorems", "harness vc10 (real getResultForOutput / provideValue+execute / isResultValid / Produced*NodeTask::isResultValid)",
                     "python oracles: table restatement of the three clauses; end-to-end history oracle through bin/llbuild"]
 
     # ---------------------------------------------------------------------------------------------
